@@ -75,6 +75,8 @@ struct List
     static constexpr std::array<std::size_t, N> aligns{(Ds::align_as ? Ds::align_as : std::size_t{1})...};
     static constexpr std::array<bool, N> has_align{(Ds::align_as != 0)...};
     static constexpr std::array<bool, N> tracked{IS_TRACKED<typename Ds::type>...};
+    // values whose copy has to go through a (counted) copy constructor
+    static constexpr std::array<bool, N> copy_counted{(IS_TRACKED<typename Ds::type> || std::is_same_v<typename Ds::type, Cpy>)...};
     static constexpr std::size_t NF = (std::size_t{} + ... + (Ds::kind == F));
     static constexpr std::size_t NV = (std::size_t{} + ... + (Ds::kind == V));
     static constexpr bool HAS_TRACKED = (IS_TRACKED<typename Ds::type> || ...);
@@ -292,6 +294,13 @@ struct List
         for (std::size_t i = 0; i < N; ++i)
             if (tracked[i])
                 for (auto& x : m.f[i]) x = MOVED;
+    }
+    static std::size_t copy_counted_objects(const Elem& m)
+    {
+        std::size_t n = 0;
+        for (std::size_t i = 0; i < N; ++i)
+            if (copy_counted[i]) n += m.f[i].size();
+        return n;
     }
     static std::size_t tracked_objects(const Elem& m)
     {
